@@ -38,6 +38,7 @@ type lane struct {
 	gated    bool
 	arrivals chan *handle // gated: every Writer() call announces itself here
 	rchunk   int          // reader hands out at most rchunk bytes per Read call (0 = everything)
+	rcalls   int          // Reader() calls since beginRead
 }
 
 func newLane(excl, gated bool, rchunk int) *lane {
@@ -156,6 +157,17 @@ func (r *frameReader) Read(p []byte) (int, error) {
 	return n, nil
 }
 
+// beginRead is called by the driver before every Transport.Read: one Read must take exactly one
+// message from the connection.  A second Reader() call inside the same Read (the transport skipped
+// or merged a message) is refused instead of blocking for ever.
+func (l *lane) beginRead() {
+	l.mu.Lock()
+	l.rcalls = 0
+	l.mu.Unlock()
+}
+
+var errSecondReader = errors.New("memconn: second Reader() call within one Transport.Read")
+
 func (l *lane) reader(ctx context.Context) (io.Reader, error) {
 	stop := context.AfterFunc(ctx, func() {
 		l.mu.Lock()
@@ -165,6 +177,10 @@ func (l *lane) reader(ctx context.Context) (io.Reader, error) {
 	defer stop()
 	l.mu.Lock()
 	defer l.mu.Unlock()
+	l.rcalls++
+	if l.rcalls > 1 {
+		return nil, errSecondReader
+	}
 	for len(l.q) == 0 {
 		if l.closed {
 			return nil, transport.ErrAlreadyClosed
